@@ -221,12 +221,14 @@ fn run_measure(sc: &Value, t: &mut Tracer) {
 	let limit = sc["limit"].as_u64().unwrap_or(400);
 	let delay_us = sc["delay_us"].as_u64().unwrap_or(500_000);
 	let mut sim = kv::scene::Sim::new(Capacities::default(), MainTrackBuilder::new(), cbf.min(128), rates[0]);
-	let src_rate = 8u32;
+	// the sound's own sample rate (default 8 Hz; a rate far above the device's makes every output frame skip several
+	// source frames)
+	let src_rate = sc["src_rate"].as_u64().unwrap_or(8) as u32;
 	let mut clock = None;
 	let secs1000: i64;
 	match what {
 		"sound" => {
-			let frames: Arc<[Frame]> = (0..16).map(|_| Frame::new(0.5, 0.5)).collect::<Vec<_>>().into();
+			let frames: Arc<[Frame]> = (0..2 * src_rate).map(|_| Frame::new(0.5, 0.5)).collect::<Vec<_>>().into();
 			let h = sim.manager.play(StaticSoundData { sample_rate: src_rate, frames, settings: StaticSoundSettings::new(), slice: None }).unwrap();
 			std::mem::forget(h);
 			secs1000 = 2000;
